@@ -189,3 +189,43 @@ def h_prec(g1: int, g2: int, g3: int, idle: int, o1: int) -> bool:
         if ins.vehicle_id != vid:
             return False
     return True
+
+
+def h_prec_order(g1: int, g2: int, g3: int, q: int) -> bool:
+    """
+    C01: the same step under two iteration orders (solver-chosen) of StepSimulation.instruction_generators -- a Map keyed by
+    generator name, i.e. hash-ordered -- after generator CASE (1..3) has been handed back through
+    StepSimulation.update_instruction_generator: the instruction that wins for v0 is the same.
+    (every order q is compared with the configured order: equality with it is transitive)
+    pre: 0 <= g1 <= 4 and 0 <= g2 <= 4 and 0 <= g3 <= 4 and 1 <= q <= 5
+    post: _
+    """
+    table = (None, 0, 1, 5, 7)
+
+    def mk(i):
+        for k in range(5):
+            if i == k:
+                return None if table[k] is None else A.instruction(table[k], "LEVEL_2", "v0")
+        return None
+
+    pa, pb = (0, 1, 2), stubs.perm_of(q, 3)
+    if pb is None:
+        return True
+    outs = [mk(g1), mk(g2), mk(g3)]
+    names = ("GenZ", "GenA", "GenM")
+    v0 = replace(A.V0, position=A.POS[3])
+    sim = sso.add_request_safe(sso.add_vehicle_safe(A.SIM0, v0).unwrap(), A.R0).unwrap()
+    won = []
+    for perm in (pa, pb):
+        env, rec = A.env_with_recorder()
+        gens = [(GenZ, GenA, GenM)[k](tuple(x for x in (outs[k],) if x is not None)) for k in range(3)]
+        step = StepSimulation.from_tuple(tuple(gens))
+        step = replace(step, instruction_generators=stubs.MapOrderView(step.instruction_generators, tuple(names[i] for i in perm)))
+        k = CASE % 4
+        if k > 0:
+            step = step.update_instruction_generator(gens[k - 1]).unwrap()
+        sim2, _ = step.update(sim, env)  # ---- real code
+        mine = [r.report["instruction_type"] for r in rec.reports if r.report_type.name == "INSTRUCTION" and r.report["vehicle_id"] == "v0"]
+        won.append(tuple(mine))
+    note("prec-order", CASE % 4, len(won[0]))
+    return won[0] == won[1]
